@@ -7,6 +7,7 @@
 package sched
 
 import (
+	"strings"
 	"bytes"
 	"runtime"
 	"strconv"
@@ -193,7 +194,19 @@ func (s *Sched) Run(maxSteps int) bool {
 				s.prio[t] = 100 - step // below everything assigned so far
 			}
 		} else {
-			t = parked[s.r.Intn(len(parked))]
+			// a thread parked right after an explicit Unlock sits in a window between two critical sections: mostly let
+			// the others run first (delaying it is what exposes a check-then-act split across the two sections)
+			var others []*thread
+			for _, th := range parked {
+				if !strings.Contains(th.label, " after ") {
+					others = append(others, th)
+				}
+			}
+			if len(others) > 0 && len(others) < len(parked) && s.r.Intn(4) != 0 {
+				t = others[s.r.Intn(len(others))]
+			} else {
+				t = parked[s.r.Intn(len(parked))]
+			}
 		}
 		s.Trace = append(s.Trace, t.name+"@"+t.label)
 		t.parked = false
